@@ -36,6 +36,8 @@ func simGenFaults(t *rapid.T, label string, classes []string, max int) []simFaul
 		f.Mode = simMode(rapid.IntRange(1, 4).Draw(t, label+"Mode"))
 		if simVirtualTime && rapid.IntRange(0, 4).Draw(t, label+"Stall") == 2 {
 			f.Mode = simHang // the operation stalls until the round's (or the strict) deadline
+		} else if rapid.IntRange(0, 5).Draw(t, label+"DeadlineErr") == 3 {
+			f.Mode = simErrDeadline // the store's own client gave up: context.DeadlineExceeded while the caller's context is alive
 		}
 		switch f.Class {
 		case "tile":
